@@ -262,6 +262,12 @@ def step (s : St) : Op → St × Out
     | none => (s, { res := .notfound })
     | some o =>
       if o.isDir then (s, { res := .err }) else
+      -- the VFS checks made before the file system's Link is called: new name absent, its directory present
+      if (find s dst).isSome then (s, { res := .err }) else
+      if !(match dst with
+          | [] => false
+          | _ :: [] => true
+          | _ :: par => ((find s par).map (·.isDir)).getD false) then (s, { res := .err }) else
       let o1 : Entry := if o.hl = 0 then { o with hl := hl, cnt := 1 } else o
       let o2 : Entry := { o1 with cnt := o1.cnt + 1 }
       -- Filer.UpdateEntry(found, o2): both are files, the type checks pass
